@@ -648,6 +648,7 @@ func (e *Eng) runBlock(fr *Frame, b *ssa.BasicBlock, st *State, edgesIn map[*ssa
 			for _, r := range in.Results {
 				rs = append(rs, e.val(fr, r))
 			}
+			e.returnSites(fr, st, in)
 			e.retEdges = append(e.retEdges, retEdge{st.reach, st.clone(), rs})
 		case *ssa.Panic:
 			if e.fc != nil && len(e.fc.Safe) > 0 {
@@ -1628,4 +1629,48 @@ func storedInLoop(a *ssa.Alloc, li *loopInfo) bool {
 		return false
 	}
 	return addrStored(a, 0)
+}
+
+
+// returnSites: `callsite return#n (locals) require E` attaches an assertion to the n-th return statement
+// (in source order) of the function, over the locals visible there.
+func (e *Eng) returnSites(fr *Frame, st *State, ret *ssa.Return) {
+	if fr.pure || e.fc == nil || len(e.fc.Sites) == 0 || fr.fn != e.fn {
+		return
+	}
+	var all []*ssa.Return
+	for _, b := range e.fn.Blocks {
+		for _, in := range b.Instrs {
+			if r, ok := in.(*ssa.Return); ok && r.Pos().IsValid() {
+				all = append(all, r)
+			}
+		}
+	}
+	sort.SliceStable(all, func(i, j int) bool { return all[i].Pos() < all[j].Pos() })
+	ord := 0
+	for i, r := range all {
+		if r == ret {
+			ord = i + 1
+		}
+	}
+	for _, ss := range e.fc.Sites {
+		if ss.Callee != "return" || ss.N != ord || ss.Kind != "require" {
+			continue
+		}
+		if e.siteHit == nil {
+			e.siteHit = map[*SiteSpec]bool{}
+		}
+		e.siteHit[ss] = true
+		vars := map[string]Val{}
+		for _, vd := range ss.Vars {
+			if v, ok := e.loopSiteVar(fr, ret, vd.Name); ok {
+				vars[vd.Name] = v
+				continue
+			}
+			vars[vd.Name] = e.localAt(fr, st, ret, vd.Name)
+		}
+		t := e.evalClause(ss.Clause, st, e.entry, nil, vars)
+		e.oblige(st, "assert", ss.Clause.Label, propsOf(ss.Clause, e), t, ret, fmt.Sprintf("assertion at return #%d: %s", ord, ss.Clause.Expr))
+		e.assume(st, t)
+	}
 }
